@@ -1,11 +1,11 @@
 #!/bin/bash
 # Offline setup: nothing to fetch.  Verifies the toolchain and validates the tokio contract
 # model against REAL tokio (models/conformance: same scripted scenarios through both).
-set -e
+set -e -o pipefail
 cd "$(dirname "$0")/.."
 export CARGO_NET_OFFLINE=true
 cargo kani --version >/dev/null
 which cbmc rsync python3 >/dev/null
 mkdir -p evidence replays build
-( cd models/conformance && CARGO_TARGET_DIR=/verif/build/conformance-target cargo test --offline --quiet 2>&1 | tail -5 )
+( cd models/conformance && CARGO_TARGET_DIR=/verif/build/conformance-target cargo test --offline --quiet 2>&1 | grep -E "test result|FAILED|panicked" )
 echo "setup ok"
